@@ -22,6 +22,10 @@
 #include "disasm/msp430.h"
 #include "simulate/null.h"
 
+// Highest address a range disassembly ends at: an instruction listed
+// there still ends below 2^32.
+#define DISASM_TOP (0xffffffff - 32)
+
 UtilContext::UtilContext() :
   simulate          { nullptr },
   cpu_name          { "msp430" },
@@ -99,8 +103,9 @@ void UtilContext::disasm(const char *token)
 
   if (get_range(token, &start, &end) == -1) { return; }
 
-  // The disasm_range functions count with 32 bits: while (start <= end).
-  if (end == 0xffffffff) { end--; }
+  // The disasm_range functions count with 32 bits: while (start <= end)
+  // with start += length.  Stay clear of the top so start can't wrap to 0.
+  if (end > DISASM_TOP) { end = DISASM_TOP; }
 
   disasm_range(
     &memory,
@@ -148,7 +153,7 @@ void UtilContext::disasm(uint32_t start, uint32_t end)
         address_min = memory.get_page_address_min(curr_start);
         address_max = memory.get_page_address_max(curr_end);
 
-        if ((uint32_t)address_max == 0xffffffff) { address_max--; }
+        if ((uint32_t)address_max > DISASM_TOP) { address_max = DISASM_TOP; }
 
         disasm_range(
           &memory,
@@ -171,7 +176,7 @@ void UtilContext::disasm(uint32_t start, uint32_t end)
     address_min = memory.get_page_address_min(curr_start);
     address_max = memory.get_page_address_max(curr_end);
 
-    if ((uint32_t)address_max == 0xffffffff) { address_max--; }
+    if ((uint32_t)address_max > DISASM_TOP) { address_max = DISASM_TOP; }
 
     disasm_range(
       &memory,
